@@ -23,4 +23,5 @@ def check(ctx, run):
     editing.r07_4(ctx, run)
     buffers.r17_5(ctx, run, rule='R07.4/R17.5')
     editing.r06_9(ctx, run, rule='R07.6/R06.9', which=('bytes',))
+    accessors.name_variants_alike(ctx, run, 'R07.7', lambda p_: p_.startswith('functions::'))
     return report.finish(run, level='other', explanation=EXPLANATION, assumptions=["A1: inputs of the chain are canonical documents", "A2/A3"])
